@@ -142,6 +142,15 @@ struct qs_agent {
 					_dom->_qs_counter.store(ctr + 1, std::memory_order_seq_cst);
 				}
 			}
+
+			// If no agent remains online, nobody is left to report quiescent states:
+			// all requested grace periods have trivially elapsed.
+			if(!_dom->_num_agents) {
+				auto current = _dom->_qs_counter.load(std::memory_order_relaxed);
+				auto desired = _dom->_desired_qs_counter.load(std::memory_order_relaxed);
+				if(desired > current)
+					_dom->_qs_counter.store(desired, std::memory_order_seq_cst);
+			}
 		}
 
 		_acked_qs_counter = 0;
